@@ -100,10 +100,10 @@ def outcome_maps(draw, spec, p_fail=0.15, p_skip=0.1, p_subfail=0.05,
     return out
 
 
-def schedules(max_len=40, ops=('loop', 'ret', 'adv', 'del')):
+def schedules(max_len=40, ops=('loop', 'ret', 'adv', 'del'), min_len=0):
     op = st.sampled_from(list(ops))
     return st.lists(st.tuples(op, st.integers(0, 7)).map(list),
-                    min_size=0, max_size=max_len)
+                    min_size=min_len, max_size=max_len)
 
 
 # ---------------------------------------------------------------------------
@@ -175,6 +175,9 @@ class Driver:
         elif op == 'del':
             if sim.inflight:
                 sim.deliver(sim.inflight[n % len(sim.inflight)])
+        elif op == 'delr':
+            if sim.inflight:
+                sim.deliver(sim.inflight[-1 - (n % len(sim.inflight))])
         elif op == 'dup':
             if sim.inflight:
                 sim.deliver(sim.inflight[n % len(sim.inflight)], keep=True)
@@ -349,25 +352,48 @@ class Driver:
         if self.sim.running:
             await self._run('reload', commands.reload_workflow(self.sim.schd))
 
-    async def drain(self, cap=2000, quiet_needed=25) -> Tuple[bool, bool]:
+    async def drain(self, cap=2000, quiet_needed=25, delays=None,
+                    ret_delays=None, poll_every=0) -> Tuple[bool, bool]:
         """Deterministic fair schedule until shutdown or quiescence.
+
+        delays: per-message delivery delays in drain rounds (consumed
+        cyclically in emission order; default none = deliver at once, FIFO);
+        ret_delays: same for process-pool command returns; poll_every: issue
+        a user poll of all active tasks every k-th round.
+        Every message is eventually delivered, every command returned.
 
         Returns (shut_down, quiescent)."""
         sim = self.sim
         quiet = 0
+        rnd = 0
+        n_msg = 0
+        n_cmd = 0
+        due = {}        # id(msg) -> round
+        cdue = {}       # cmd id -> round
         for _ in range(cap):
             if not sim.running:
                 return True, False
+            rnd += 1
             progressed = False
             for it in sim.pending_cmds():
-                sim.mark_returned(it)
+                if ret_delays and it['id'] not in cdue:
+                    cdue[it['id']] = rnd + ret_delays[n_cmd % len(ret_delays)]
+                    n_cmd += 1
+                if cdue.get(it['id'], 0) <= rnd:
+                    sim.mark_returned(it)
                 progressed = True
             for job in sorted(sim.live_jobs(), key=lambda j: j.key):
                 sim.advance(job)
                 progressed = True
             for m in list(sim.inflight):
-                sim.deliver(m)
+                if delays and id(m) not in due:
+                    due[id(m)] = rnd + delays[n_msg % len(delays)]
+                    n_msg += 1
+                if due.get(id(m), 0) <= rnd:
+                    sim.deliver(m)
                 progressed = True
+            if poll_every and rnd % poll_every == 0 and rnd < 200:
+                await self.cmd_poll_all()
             n0 = len(sim.trace)
             alive = await self.loop()
             if not alive:
@@ -383,6 +409,16 @@ class Driver:
                 if quiet >= quiet_needed:
                     return False, True
         return False, False
+
+    async def cmd_poll_all(self):
+        from cylc.flow import commands
+        sim = self.sim
+        if not sim.running:
+            return
+        if any(t.state('submitted', 'running')
+               for t in sim.schd.pool.get_tasks()):
+            await commands.run_cmd(commands.poll_tasks(sim.schd, ['*/*']))
+            sim.ev('cmd-poll', task='*/*')
 
     def launches(self) -> List[Tuple[str, int, int]]:
         return [(name, self.to_int.get(cycle, cycle), sn)
@@ -463,6 +499,9 @@ class SCase:
             await self.drv.step(*step)
 
     async def drain(self, **kw):
+        for k in ('delays', 'ret_delays', 'poll_every'):
+            if k not in kw and self.case.get(k):
+                kw[k] = self.case[k]
         self.shut, self.quiescent = await self.drv.drain(**kw)
         return self.shut, self.quiescent
 
